@@ -19,6 +19,7 @@ format but not any :py:mod:`cutplace.fields` or :py:mod:`cutplace.checks`.
 import csv
 import datetime
 import io
+import re
 import os
 import zipfile
 from contextlib import closing
@@ -235,6 +236,21 @@ def _findall(element, xpath, namespaces):
     return result
 
 
+#: Integer attribute values as XML schema describes them, unlike ``int()`` without underscores and non ASCII digits.
+_ODS_INTEGER_REGEX = re.compile(r"^\s*[+-]?[0-9]+\s*$")
+
+
+def _ods_int(integer_text):
+    """
+    Integer value of an ODS attribute.
+
+    :raises ValueError: if ``integer_text`` is not an integer number
+    """
+    if _ODS_INTEGER_REGEX.match(integer_text) is None:
+        raise ValueError("invalid integer number: %r" % integer_text)
+    return int(integer_text)
+
+
 def _ods_element_text(element, location):
     """
     The text of an ODF text ``element`` such as ``text:p`` or ``text:span``
@@ -246,11 +262,16 @@ def _ods_element_text(element, location):
         if child.tag == _TEXT_S:
             space_count_text = child.attrib.get(_TEXT_C, "1")
             try:
-                result += " " * int(space_count_text)
+                space_count = _ods_int(space_count_text)
             except ValueError:
                 raise errors.DataFormatError(
                     "text:c is %s but must be an integer" % _compat.text_repr(space_count_text), location
                 )
+            if space_count < 0:
+                raise errors.DataFormatError(
+                    "text:c is %s but must be at least 0" % _compat.text_repr(space_count_text), location
+                )
+            result += " " * space_count
         elif child.tag == _TEXT_TAB:
             result += "\t"
         elif child.tag == _TEXT_LINE_BREAK:
@@ -326,7 +347,7 @@ def ods_rows(source_ods_path, sheet=1):
     for table_row_index, table_row in enumerate(table_rows):
         repeated_rows_text = table_row.attrib.get(_NUMBER_ROWS_REPEATED, "1")
         try:
-            repeated_row_count = int(repeated_rows_text)
+            repeated_row_count = _ods_int(repeated_rows_text)
             if repeated_row_count < 1:
                 raise errors.DataFormatError(
                     "table:number-rows-repeated is %s but must be at least 1" % _compat.text_repr(repeated_rows_text),
@@ -343,7 +364,7 @@ def ods_rows(source_ods_path, sheet=1):
                 continue
             repeated_text = table_cell.attrib.get(_NUMBER_COLUMNS_REPEATED, "1")
             try:
-                repeated_count = int(repeated_text)
+                repeated_count = _ods_int(repeated_text)
                 if repeated_count < 1:
                     raise errors.DataFormatError(
                         "table:number-columns-repeated is %s but must be at least 1" % _compat.text_repr(repeated_text),
